@@ -135,6 +135,25 @@ def run_plans(rep, crate, cfg):
         gens = [e for e in ls.events if e["sink"] == "generate"]
         wps = [e for e in ls.events if e["sink"] == "with_encoding_plan"]
         ok = len(gens) == 1 and len(wps) == 1
+        if len(wps) == 1 and not gens:
+            # the plan comes from the process-wide cache: it must be the cached plan for THIS block's symbol count
+            planarg = N(wps[0]["args"][3])
+            block = wps[0]["args"][2]
+            while block[0] in ("ref", "deref", "deref*"):
+                block = block[1]
+            got = terms.find(("call", V("g", lambda x: isinstance(x, str) and x.endswith("get_or_generate_source_block_encoding_plan")), (V("n"),)), planarg)
+            okc = False
+            if got is not None:
+                n_ = N(got[0]["n"])
+                T_ = ("call", "base::ObjectTransmissionInformation::symbol_size", (V("c"),))
+                mm = match(("op", "Div", ("call", V("l", lambda x: isinstance(x, str) and x.endswith("::len")), (V("d"),)), T_), n_)
+                d_ = mm["d"] if mm else None
+                while d_ is not None and d_[0] in ("ref", "deref", "deref*"):
+                    d_ = d_[1]
+                okc = mm is not None and d_ == N(block)
+            rep.check(okc, R, f.key, "plan-reuse", f.loc(),
+                      "Encoder::new takes, for every block, the cached plan of exactly that block's symbol count", {"plan": fmt(planarg)[:200]}, cfg)
+            continue
         if ok:
             cnt = N(gens[0]["args"][0])
             dnf = dec.conds_of(ls, gens[0]["block"])
